@@ -107,14 +107,14 @@ def ref_member(entries, client):
 class DS:
     """recording data source whose calls can raise"""
 
-    def __init__(self, find, getd):
-        self.find, self.getd, self.log = find, getd, []
+    def __init__(self, find, getd, sys="sys1"):
+        self.find, self.getd, self.sys, self.log = find, getd, sys, []
 
     def find_system(self, key, value):
         self.log.append(("find_system", key, value))
         if self.find == "raise":
             raise RuntimeError("find_system failed")
-        return "sys1" if self.find == "found" else None
+        return self.sys if self.find == "found" else None
 
     def get_data(self, system_id, preset, version):
         self.log.append(("get_data", system_id))
@@ -268,6 +268,17 @@ class C05(Check):
                         yield ents, client
                     # the same network written as a mapped IPv6 net
                     yield [f"::ffff:{t4(b)}/{96 + m}"], t4(c)
+                # native IPv6 clients that only LOOK mapped: ffff in the sixth group and the allowed IPv4
+                # address in the low 32 bits, but the first 80 bits are not zero (never members of a v4 net),
+                # and near-misses with the marker in another group
+                hx = "%x:%x" % (int.from_bytes(b[:2], "big"), int.from_bytes(b[2:], "big"))
+                for fake in ("2001:db8::ffff:" + hx, "::1:0:ffff:" + hx, "8000::ffff:" + hx, "::1:ffff:" + hx,
+                             "::ffff:0:" + hx, "::fffe:" + hx, "::ffff:ffff:" + hx, "0:0:0:0:ffff:ffff:" + hx):
+                    yield ents, fake
+                    yield [f"::ffff:{t4(b)}/{96 + m}"], fake
+                # and the dual: entries of that shape against the plain / mapped IPv4 client
+                yield [f"2001:db8::ffff:{hx}/{96 + m}"], t4(b)
+                yield [f"::1:0:ffff:{hx}/{96 + m}"], "::ffff:" + t4(b)
         for b in v6b:
             for m in range(0, 130):
                 ents = [f"{t6(b)}/{m}"]
@@ -283,12 +294,15 @@ class C05(Check):
 
     CLIENTS = ["192.168.77.129", "10.0.0.1", "::ffff:192.168.77.129", "::ffff:c0a8:4d81", "2001:db8::1", "::1",
                "fe80::1%eth0", "192.168.77.129%eth0", "", "bogus", "192.168.77", "192.168.077.129", "192.168.77.129\x00",
-               "::ffff:192.168.77.129\x00", " 192.168.77.129", "192.168.77.129/32", "1.2.3.4.5", ":::"]
+               "::ffff:192.168.77.129\x00", " 192.168.77.129", "192.168.77.129/32", "1.2.3.4.5", ":::",
+               "2001:db8::ffff:c0a8:4d81", "::1:0:ffff:c0a8:4d81", "2001:db8::ffff:192.168.77.129", "::ffff:0:c0a8:4d81",
+               "::fffe:c0a8:4d81", "ffff::c0a8:4d81", "::1:ffff:c0a8:4d81"]
     ENTRY_POOL = ["192.168.77.129", "192.168.77.0/24", "192.168.77.128/25", "192.168.77.0/25", "10.0.0.0/8", "0.0.0.0/0",
                   "::/0", "::ffff:0:0/96", "::ffff:192.168.77.0/120", "::ffff:c0a8:4d00/121", "2001:db8::/32", "2001:db8::1",
                   "::1/128", "192.168.77.129/33", "2001:db8::/129", "192.168.77.0/+24", "192.168.77.0/", "/24", "",
                   "192.168.77.0/24/24", "192.168.77.0/ 24", "bogus", "192.168.77.129\x00", "10.0.0.0/008", "0.0.0.0/00",
-                  "192.168.77.0/2_4", "fe80::/10", "fe80::1%eth0", "192.168.77.129/0x20", "::ffff:192.168.77.129/128"]
+                  "192.168.77.0/2_4", "fe80::/10", "fe80::1%eth0", "192.168.77.129/0x20", "::ffff:192.168.77.129/128",
+                  "2001:db8::ffff:c0a8:4d81", "2001:db8::ffff:c0a8:4d00/120", "::1:0:ffff:0:0/96", "::ffff:0:c0a8:4d81/128"]
     BAD_ENTRIES = [5, None, ["192.168.77.129"], {"a": 1}, b"192.168.77.129", 1.5, True, ("192.168.77.129",)]
 
     def gen(self, tier, rng):
@@ -325,7 +339,8 @@ class C05(Check):
                  ("val", ["10.9.9.9", b"192.168.77.129"]),
                  ("raise",)]
         lists = [[], ["192.168.77.129"], ["10.0.0.0/8"], ["bogus", "10.9.9.0/24"], ["::ffff:192.168.77.129"]]
-        clients = [member_cl, other_cl, "::ffff:192.168.77.129", "::ffff:a09:909", "fe80::1%eth0", "bogus", "10.9.9.9\x00"]
+        clients = [member_cl, other_cl, "::ffff:192.168.77.129", "::ffff:a09:909", "fe80::1%eth0", "bogus", "10.9.9.9\x00",
+                   "2001:db8::ffff:c0a8:4d81", "::1:0:ffff:c0a8:4d81"]
         for kind in ("http", "tftp"):
             for key in (False, True):
                 for lst in lists:
@@ -361,6 +376,39 @@ class C05(Check):
                         c = self.mk("update", "handler", key=key, entries=lst, getd=g, client=client)
                         c["ref"] = self.handler_ref(c)
                         yield c
+        yield from self.gen_histories(tier, rng)
+
+    SYSTEMS = {"sysA": ("val", ["10.1.0.0/16"]), "sysB": ("val", "192.168.77.129"), "sysC": ("missing", {}),
+               "sysD": ("val", ["2001:db8::/32", "bogus"]), "sysE": ("val", ("10.1.2.3",))}
+    H_CLIENTS = ["10.1.2.3", "192.168.77.129", "10.9.9.9", "2001:db8::5", "::ffff:10.1.2.3", "172.16.0.1"]
+
+    def gen_histories(self, tier, rng):
+        """sequences of requests for different systems / clients on ONE long-lived handler object"""
+        q = tier == "quick"
+        steps = [{"sys": sname, "find": "found", "getd": g, "client": cl}
+                 for sname, g in self.SYSTEMS.items() for cl in self.H_CLIENTS]
+        unknown = [{"sys": "nosuch", "find": "none", "getd": ("missing", {}), "client": cl} for cl in self.H_CLIENTS]
+        cfgs = [(True, ["172.16.0.0/12"]), (True, []), (False, ["172.16.0.0/12", "10.1.2.3"])]
+        for hkind in ("update", "http", "tftp"):
+            pool = steps + ([] if hkind == "update" else unknown) + \
+                   ([{"sys": "nosuch", "find": "found", "getd": ("missing", {}), "client": cl} for cl in self.H_CLIENTS]
+                    if hkind == "update" else [])
+            for (key, lst) in cfgs:
+                pairs = [(a, b) for a in pool for b in pool if a["sys"] != b["sys"] or a["client"] != b["client"]]
+                if q:
+                    pairs = rng.sample(pairs, 220 if hkind == "update" else 120)
+                elif hkind != "update":
+                    pairs = rng.sample(pairs, 600)
+                for (a, b) in pairs:
+                    yield self.mk("hist", hkind + "/pairs", hkind=hkind, key=key, entries=lst, steps=[a, b],
+                                  act=rng.choice(list(ACT)), nores=rng.choice(["not_found", "continue"]),
+                                  template=rng.random() < 0.3, fs=rng.choice(["content", "content", "missing"]))
+                for _ in range(25 if q else 300):
+                    n = rng.randrange(3, 7)
+                    yield self.mk("hist", hkind + "/random", hkind=hkind, key=key, entries=lst,
+                                  steps=[rng.choice(pool) for _ in range(n)],
+                                  act=rng.choice(list(ACT)), nores=rng.choice(["not_found", "continue"]),
+                                  template=rng.random() < 0.3, fs=rng.choice(["content", "content", "missing"]))
 
     @staticmethod
     def handler_ref(c):
@@ -402,10 +450,41 @@ class C05(Check):
                 return (3, 0)
             return (1 if r is True else 0 if r is False else 3, 0)
         w = self.ensure_world()
+        if c["kind"] == "hist":
+            return self.run_history(w, c)
         ds = DS(c["find"], c["getd"])
         if c["kind"] == "update":
-            return self.run_update(w, c, ds)
-        return self.run_file(w, c, ds)
+            h = self.make_update(w, c, ds, text_body=False)
+            try:
+                return self.update_request(w, h, c["client"], "sys1", None)
+            finally:
+                h.close()
+        made = self.make_file(w, c, ds)
+        if made is None:
+            return (9, 0)
+        return self.file_request(w, c["kind"], made, c["client"])
+
+    # one long-lived handler object, a sequence of requests (different systems / clients)
+    def run_history(self, w, c):
+        ds = DS("found", ("missing", {}))
+        out = []
+        if c["hkind"] == "update":
+            h = self.make_update(w, c, ds, text_body=True)
+            try:
+                for st in c["steps"]:
+                    ds.find, ds.getd, ds.sys = st["find"], st["getd"], st["sys"]
+                    w.counter += 1
+                    out.append(self.update_request(w, h, st["client"], st["sys"], f"body{w.counter}".encode()))
+            finally:
+                h.close()
+            return out
+        made = self.make_file(w, c, ds, kind=c["hkind"])
+        if made is None:
+            return [(9, 0)] * len(c["steps"])
+        for st in c["steps"]:
+            ds.find, ds.getd, ds.sys = st["find"], st["getd"], st["sys"]
+            out.append(self.file_request(w, c["hkind"], made, st["client"]))
+        return out
 
     def file_config(self, w, c):
         cfg = {"request_path": "/f/..." if c["lookup"] else "/f/x",
@@ -419,25 +498,27 @@ class C05(Check):
             cfg["client_address_list"] = list(c["entries"])
         return cfg
 
-    def run_file(self, w, c, ds):
+    def make_file(self, w, c, ds, kind=None):
         cfg = self.file_config(w, c)
-        w.opens = 0
+        kind = kind or c["kind"]
         try:
-            if c["kind"] == "http":
-                h = F.HttpFileRequestHandler(cfg)
-            else:
-                h = F.TftpFileRequestHandler(cfg)
+            h = F.HttpFileRequestHandler(cfg) if kind == "http" else F.TftpFileRequestHandler(cfg)
             h.set_data_source(ds)
             if c["template"]:
                 h._template_engine = FakeEngine(w.rec_open)
-            uri = "/f/abc"if c["lookup"] else "/f/x"
+            uri = "/f/abc" if c["lookup"] else "/f/x"
             ctx = h.prepare_context(uri)
             assert h.can_handle(uri, ctx)
-        except Exception as e:   # noqa: BLE001
-            return (9, 0)
+        except Exception:   # noqa: BLE001
+            return None
+        return (h, uri, ctx)
+
+    def file_request(self, w, kind, made, client):
+        h, uri, ctx = made
+        w.opens = 0
         try:
-            if c["kind"] == "http":
-                ri = HttpRequestInfo(client_address=(c["client"], 4711), headers=http.client.HTTPMessage(),
+            if kind == "http":
+                ri = HttpRequestInfo(client_address=(client, 4711), headers=http.client.HTTPMessage(),
                                      method="GET", server_address=("192.0.2.1", 80), uri=uri)
                 status, headers, body = h.handle(ri, io.BytesIO(b""), ctx)
                 code = {200: 0, 404: 1, 403: 2}.get(int(status), 3)
@@ -448,7 +529,7 @@ class C05(Check):
                         code = 8
             else:
                 try:
-                    f = h.handle(uri, (c["client"], 4711), ("192.0.2.1", 69), ctx)
+                    f = h.handle(uri, (client, 4711), ("192.0.2.1", 69), ctx)
                     data = f.read()
                     f.close()
                     code = 0 if data == b"secret content\n" else 8
@@ -458,33 +539,44 @@ class C05(Check):
             code = 3
         return (code, w.opens)
 
-    def run_update(self, w, c, ds):
+    def make_update(self, w, c, ds, text_body):
         w.counter += 1
-        cfg = {"request_path": "/u", "action": "set_value", "key": "k", "value": f"v{w.counter}", "db_file": w.db}
+        cfg = {"request_path": "/u", "key": "k", "db_file": w.db}
+        if text_body:
+            cfg["action"] = "set_text_value_from_request_body"
+        else:
+            cfg.update(action="set_value", value=f"v{w.counter}")
         if c["key"]:
             cfg["client_address_key"] = "net:ip"
         if c["entries"]:
             cfg["client_address_list"] = list(c["entries"])
         h = U.HttpSQLiteUpdateRequestHandler(cfg)
+        h.set_data_source(ds)
+        return h
+
+    def update_request(self, w, h, client, system, body):
+        uri = "/u/" + system
+        ctx = h.prepare_context(uri)
+        assert h.can_handle(uri, ctx)
+        before = w.snapshot()
+        hdr = http.client.HTTPMessage()
+        if body is not None:
+            hdr["Content-Length"] = str(len(body))
+        ri = HttpRequestInfo(client_address=(client, 4711), headers=hdr, method="POST",
+                             server_address=("192.0.2.1", 80), uri=uri)
         try:
-            h.set_data_source(ds)
-            ctx = h.prepare_context("/u/sys1")
-            assert h.can_handle("/u/sys1", ctx)
-            before = w.snapshot()
-            ri = HttpRequestInfo(client_address=(c["client"], 4711), headers=http.client.HTTPMessage(),
-                                 method="POST", server_address=("192.0.2.1", 80), uri="/u/sys1")
-            try:
-                status, headers, body = h.handle(ri, io.BytesIO(b""), ctx)
-                code = {200: 4, 403: 2}.get(int(status), 3)
-            except Exception:   # noqa: BLE001
-                code = 3
-            after = w.snapshot()                      # read back through a second connection
-            return (code, 0 if before == after else 1)
-        finally:
-            h.close()
+            status, headers, rbody = h.handle(ri, io.BytesIO(body or b""), ctx)
+            code = {200: 4, 403: 2}.get(int(status), 3)
+        except Exception:   # noqa: BLE001
+            code = 3
+        after = w.snapshot()                      # the whole database, read back through a second connection
+        changed = 0 if before == after else 1
+        if code == 4 and body is not None and body.decode() not in repr(after):
+            changed = 9                           # granted but the value is not in the database
+        return (code, changed)
 
     # ------------------------------------------------------------------ protocol
-    def line(self, c, obs):
+    def struct(self, c, obs):
         strs = [c["client"]] + [e for e in c["entries"] if isinstance(e, str)]
         g = c["getd"]
         if g[0] == "val":
@@ -496,14 +588,31 @@ class C05(Check):
         t4, t6 = tables(strs)
         ref = [] if c["ref"] is None else [1 if c["ref"] else 0]
         ents = [e if isinstance(e, str) else 0 for e in c["entries"]]
-        return sx([KIND[c["kind"]], c["raise"], ents, c["client"], c["key"], ACT[c["act"]],
-                   0 if c["nores"] == "not_found" else 1, c["template"], c["lookup"], FIND[c["find"]],
-                   getd_sx(g), FS[c["fs"]], t4, t6, ref, [obs[0], obs[1]]])
+        return [KIND[c["kind"]], c["raise"], ents, c["client"], c["key"], ACT[c["act"]],
+                0 if c["nores"] == "not_found" else 1, c["template"], c["lookup"], FIND[c["find"]],
+                getd_sx(g), FS[c["fs"]], t4, t6, ref, [obs[0], obs[1]]]
+
+    @staticmethod
+    def step_case(c, st):
+        """the single-request case of one step of a history"""
+        d = {k: v for k, v in c.items() if k not in ("steps", "hkind")}
+        d.update(kind=c["hkind"], client=st["client"], find=st["find"], getd=st["getd"])
+        d["ref"] = C05.handler_ref(d)
+        return d
+
+    def line(self, c, obs):
+        if c["kind"] == "hist":
+            return sx([9, [self.struct(self.step_case(c, st), o) for st, o in zip(c["steps"], obs)]])
+        return sx(self.struct(c, obs))
 
     def canon(self, obs):
+        if isinstance(obs, list):
+            return [[o[0], o[1]] for o in obs]
         return [obs[0], obs[1]]
 
     def nontrivial(self, c, obs):
+        if c["kind"] == "hist":
+            return repr((c["hkind"], c["key"], c["entries"], c["steps"]))
         if c["entries"] or c["key"]:
             return repr(sorted(c.items(), key=lambda kv: kv[0]))
         return None
@@ -512,6 +621,11 @@ class C05(Check):
         return {k: (repr(v) if not isinstance(v, (int, bool, type(None))) else v) for k, v in c.items()}
 
     def shrink(self, c):
+        if c["kind"] == "hist":
+            for i in range(len(c["steps"])):
+                if len(c["steps"]) > 1:
+                    yield dict(c, steps=c["steps"][:i] + c["steps"][i + 1:])
+            return
         for i in range(len(c["entries"])):
             c2 = dict(c, entries=c["entries"][:i] + c["entries"][i + 1:])
             c2["ref"] = self.handler_ref(c2) if c["kind"] != "contains" else ref_member(c2["entries"], c2["client"])
